@@ -79,6 +79,8 @@ structure Cfg where
   budget : Nat
   w : GW
   threads : Nat → GT
+  /-- ghost: the pool thread that is inside the direct (manager-goroutine) deactivation -/
+  dea : Option Nat
   log : List Ev
   mon : Mon
 
@@ -132,10 +134,10 @@ def tStep (c : Cfg) (i : Nat) : Cfg :=
   | .mCheck =>
     if !c.active || c.onPill then setT c i .done
     else if c.reent then setT { c with box := c.box ++ [.ppill], sched := trySchedule c.sched } i .done
-    else setT c i (.mDea .deaB)
+    else setT { c with dea := some i } i (.mDea .deaB)
   | .mDea .deaB => setT (emit c (.postB me .pass)) i (.mDea .deaE)
   | .mDea .deaE => setT (emit c (.postE me)) i (.mDea .fin)
-  | .mDea .fin => setT (finish c) i .done
+  | .mDea .fin => setT { finish c with dea := none } i .done
 
 def step (c : Cfg) (a : Nat) : Cfg :=
   match a with
@@ -150,7 +152,7 @@ def run (c : Cfg) : List Nat → Cfg
 def init (reent : Bool) (budget : Nat) (prog : Nat → GT) : Cfg :=
   { active := false, onPill := false, inMap := false, deleted := false, reent := reent,
     sched := .idle, box := [], budget := budget, w := .idle, threads := prog,
-    log := [], mon := Mon.init }
+    dea := none, log := [], mon := Mon.init }
 
 def GT.initial : GT → Bool
   | .done | .sEnsure _ | .mCheck => true
@@ -169,6 +171,34 @@ def GT.creating : GT → Bool
 def GW.inDeaLate : GW → Bool
   | .dea .deaE _ _ | .dea .fin _ _ => true
   | _ => false
+
+
+/-- the worker is inside deactivate -/
+def GW.inDea : GW → Bool
+  | .dea _ _ _ => true
+  | _ => false
+
+/-! ### the guard of the partial theorem
+
+`okStep` restricts the scheduler so that (a) a user message is only handed to the mailbox while the
+process is active, no pill is queued, and no deactivation is in progress (i.e. sends are not
+concurrent with a deactivation), and (b) a direct (manager-goroutine) deactivation only starts on an
+idle grain with an empty mailbox, and no turn starts while it runs. -/
+def okStep (c : Cfg) (a : Nat) : Bool :=
+  match a with
+  | 0 =>
+    match c.w with
+    | .idle => c.dea.isNone
+    | _ => true
+  | k + 1 =>
+    match c.threads k with
+    | .sRecv false => c.box.all (· == .user) && !c.w.inDea && c.dea.isNone
+    | .mCheck => c.reent || (c.w == .idle && c.box.isEmpty && c.dea.isNone)
+    | _ => true
+
+def guarded (c : Cfg) : List Nat → Bool
+  | [] => true
+  | a :: s => okStep c a && guarded (step c a) s
 
 /-- admissible pools: thread 0 creates the process, every other thread starts at its first instruction -/
 def admissible (prog : Nat → GT) : Prop :=
